@@ -50,11 +50,42 @@ static void die(const char *m, int e) {
 }
 #define OK(x) do { int e_ = (x); if (e_ != NC_NOERR) die(#x, e_); } while (0)
 
-/* fixed schema: dims t (unlimited), x=4; vars fv(x) int, cv(x) char, [rv(t,x) int, fill on];
- * atts: global ga int[2], gb int[1], ca int[2], cg int[4]; every var va int[2], vb int[1];
- * fv also ca int[2], cg int[1] */
+/* fixed schema: dims t (unlimited), x=4, xlong=2; vars fv(x) int, cv(x) char, [rv(t,x) int, fill on];
+ * attributes: table ATTS below */
+/* attribute of external type letter t (c char, b byte, s short, i int, f float, d double) with n elements */
+static int put_att_t(int id, int varid, const char *name, char t, MPI_Offset n) {
+    static const int iv[8] = {1, 2, 3, 4, 5, 6, 7, 8};
+    switch (t) {
+        case 'c': return ncmpi_put_att_text(id, varid, name, n, "abcdefgh");
+        case 'b': return ncmpi_put_att_int(id, varid, name, NC_BYTE, n, iv);
+        case 's': return ncmpi_put_att_int(id, varid, name, NC_SHORT, n, iv);
+        case 'f': return ncmpi_put_att_int(id, varid, name, NC_FLOAT, n, iv);
+        case 'd': return ncmpi_put_att_int(id, varid, name, NC_DOUBLE, n, iv);
+        default:  return ncmpi_put_att_int(id, varid, name, NC_INT, n, iv);
+    }
+}
+
+/* the attributes of the schema (mirrored in checks/c14.py: ATTS).  scope G global, F variable fv, A every variable.
+ * o<t><n>: attributes to be overwritten, on the file and on fv; p<k>: copy_att pairs (source global, destination fv) */
+static const struct att { char scope; const char *name; char t; int n; } ATTS[] = {
+    {'G', "ga", 'i', 2}, {'G', "gb", 'i', 1}, {'A', "va", 'i', 2}, {'A', "vb", 'i', 1},
+    {'G', "oi1", 'i', 1}, {'G', "oi2", 'i', 2}, {'G', "oi3", 'i', 3}, {'G', "os2", 's', 2}, {'G', "os3", 's', 3},
+    {'G', "oc3", 'c', 3}, {'G', "oc4", 'c', 4}, {'G', "oc5", 'c', 5}, {'G', "od1", 'd', 1}, {'G', "od2", 'd', 2},
+    {'G', "ob3", 'b', 3},
+    {'F', "oi1", 'i', 1}, {'F', "oi2", 'i', 2}, {'F', "oi3", 'i', 3}, {'F', "os2", 's', 2}, {'F', "os3", 's', 3},
+    {'F', "oc3", 'c', 3}, {'F', "oc4", 'c', 4}, {'F', "oc5", 'c', 5}, {'F', "od1", 'd', 1}, {'F', "od2", 'd', 2},
+    {'F', "ob3", 'b', 3},
+    {'G', "p0", 'i', 3}, {'F', "p0", 'i', 2},   {'G', "p1", 'd', 1}, {'F', "p1", 'i', 1},
+    {'G', "p2", 'd', 2}, {'F', "p2", 'i', 3},   {'G', "p3", 's', 4}, {'F', "p3", 'i', 2},
+    {'G', "p4", 's', 3}, {'F', "p4", 'i', 2},   {'G', "p5", 'c', 3}, {'F', "p5", 'i', 1},
+    {'G', "p6", 'c', 5}, {'F', "p6", 'i', 1},   {'G', "p7", 'i', 1}, {'F', "p7", 'c', 4},
+    {'G', "p8", 'i', 2}, {'F', "p8", 'c', 4},   {'G', "p9", 'c', 4}, {'F', "p9", 'c', 3},
+    {'G', "p10", 'c', 5}, {'F', "p10", 'c', 4}, {'G', "p11", 'i', 2}, {'F', "p11", 'i', 2},
+    {'G', "p12", 'i', 1}, {'F', "p12", 'd', 1},
+    {0, NULL, 0, 0}};
+
 static void schema(int id) {
-    int d2[2], two[4] = {1, 2, 3, 4}, fillv = -7;
+    int d2[2], fillv = -7;
     OK(ncmpi_def_dim(id, "t", NC_UNLIMITED, &did_t));
     OK(ncmpi_def_dim(id, "x", 4, &did_x));
     OK(ncmpi_def_var(id, "fv", NC_INT, 1, &did_x, &id_fv));
@@ -65,16 +96,13 @@ static void schema(int id) {
         OK(ncmpi_def_var(id, "rv", NC_INT, 2, d2, &id_rv));
         OK(ncmpi_def_var_fill(id, id_rv, 0, &fillv));
     }
-    OK(ncmpi_put_att_int(id, NC_GLOBAL, "ga", NC_INT, 2, two));
-    OK(ncmpi_put_att_int(id, NC_GLOBAL, "gb", NC_INT, 1, two));
-    OK(ncmpi_put_att_int(id, NC_GLOBAL, "ca", NC_INT, 2, two));
-    OK(ncmpi_put_att_int(id, NC_GLOBAL, "cg", NC_INT, 4, two));
-    for (int v = 0; v < (hasRec ? 3 : 2); v++) {
-        OK(ncmpi_put_att_int(id, v, "va", NC_INT, 2, two));
-        OK(ncmpi_put_att_int(id, v, "vb", NC_INT, 1, two));
+    OK(ncmpi_def_dim(id, "xlong", 2, &d2[0]));          /* dim id 2: a 5-byte name for "shorter" renames */
+    for (int i = 0; ATTS[i].name; i++) {
+        const struct att *a = &ATTS[i];
+        if (a->scope == 'G') OK(put_att_t(id, NC_GLOBAL, a->name, a->t, a->n));
+        else if (a->scope == 'F') OK(put_att_t(id, id_fv, a->name, a->t, a->n));
+        else for (int v = 0; v < (hasRec ? 3 : 2); v++) OK(put_att_t(id, v, a->name, a->t, a->n));
     }
-    OK(ncmpi_put_att_int(id, id_fv, "ca", NC_INT, 2, two));
-    OK(ncmpi_put_att_int(id, id_fv, "cg", NC_INT, 1, two));
 }
 
 static void make_template(void) {
@@ -212,40 +240,43 @@ static int do_call(char *line, long long *val) {
         return ncmpi_del_att(ncid, varid_of(A(0)), B(1) ? NULL : (B(2) ? (g ? "ga" : "va") : "nonexist"));
     }
     if (!strcmp(c, "putatt")) {
-        /* v nameBad typeBad charMix negLen exists grows */
-        int g = A(0)[0] == 'g';
-        const char *nm = B(1) ? NULL : (B(5) ? (g ? "ga" : "va") : "zz");
-        nc_type xt = B(2) ? (nc_type)0 : (B(3) ? NC_CHAR : NC_INT);
-        MPI_Offset n = B(4) ? -1 : (B(6) ? 4 : 2);
-        return ncmpi_put_att_int(ncid, varid_of(A(0)), nm, xt, n, two);
+        /* v nameBad typeBad charMix negLen exists oldType oldCount newType newCount name */
+        const char *nm = B(1) ? NULL : A(10);
+        char ty = A(8)[0];
+        MPI_Offset n = B(4) ? -1 : B(9);
+        if (B(2)) return ncmpi_put_att_int(ncid, varid_of(A(0)), nm, (nc_type)0, n, two);
+        if (B(3)) return ncmpi_put_att_int(ncid, varid_of(A(0)), nm, NC_CHAR, n, two);
+        return put_att_t(ncid, varid_of(A(0)), nm, ty, n);
     }
     if (!strcmp(c, "getatt")) {
         int g = A(0)[0] == 'g', out[8];
         return ncmpi_get_att_int(ncid, varid_of(A(0)), B(1) ? NULL : (B(2) ? (g ? "ga" : "va") : "nonexist"), out);
     }
     if (!strcmp(c, "copyatt")) {
-        /* vinBad voutBad nameBad srcExists dstExists grows : global -> fv */
-        const char *nm = B(2) ? NULL : (!B(3) ? "nonexist" : (!B(4) ? "ga" : (B(5) ? "cg" : "ca")));
-        return ncmpi_copy_att(ncid, B(0) ? 99 : NC_GLOBAL, nm, ncid, B(1) ? 99 : id_fv);
+        /* vinBad voutBad nameBad srcExists dstExists srcType srcCount dstType dstCount name : global -> fv */
+        return ncmpi_copy_att(ncid, B(0) ? 99 : NC_GLOBAL, B(2) ? NULL : A(9), ncid, B(1) ? 99 : id_fv);
     }
     if (!strcmp(c, "renameatt")) {
-        /* v nameBad exists newInUse longer */
+        /* v nameBad exists newInUse oldLen newLen oldname */
         int g = A(0)[0] == 'g';
-        const char *nm = B(1) ? NULL : (B(2) ? (g ? "ga" : "va") : "nonexist");
-        const char *nn = B(3) ? (g ? "gb" : "vb") : (B(4) ? "a_much_longer_name" : "v2");
-        return ncmpi_rename_att(ncid, varid_of(A(0)), nm, nn);
+        char nn[64]; int nl = B(5);
+        if (B(3)) strcpy(nn, g ? "gb" : "vb");
+        else { memset(nn, 'q', nl); nn[nl] = 0; }
+        return ncmpi_rename_att(ncid, varid_of(A(0)), B(1) ? NULL : A(6), nn);
     }
     if (!strcmp(c, "renamevar")) {
-        /* v nameBad inUse longer */
-        char nn[64];
+        /* v nameBad inUse oldLen newLen : the old names fv/cv/rv have 2 bytes */
+        char nn[64]; int nl = B(4);
         if (B(2)) strcpy(nn, A(0)[0] == 'c' ? "fv" : "cv");
-        else if (B(3)) sprintf(nn, "%s_longer", varname_of(A(0)));
-        else sprintf(nn, "%c2", A(0)[0] == 'g' || A(0)[0] == 'b' ? 'q' : A(0)[0]);
+        else { memset(nn, 'w', nl); nn[nl] = 0; }
         return ncmpi_rename_var(ncid, varid_of(A(0)), B(1) ? NULL : nn);
     }
     if (!strcmp(c, "renamedim")) {
-        /* nameBad dimBad inUse longer */
-        return ncmpi_rename_dim(ncid, B(1) ? 99 : did_x, B(0) ? NULL : (B(2) ? "t" : (B(3) ? "x_longer" : "y")));
+        /* nameBad dimBad inUse oldLen newLen : oldLen 1 = dim x (id 1), 5 = dim xlong (id 2) */
+        char nn[64]; int nl = B(4);
+        if (B(2)) strcpy(nn, "t");
+        else { memset(nn, 'y', nl); nn[nl] = 0; }
+        return ncmpi_rename_dim(ncid, B(1) ? 99 : (B(3) == 5 ? 2 : did_x), B(0) ? NULL : nn);
     }
     if (!strcmp(c, "rw") || !strcmp(c, "post")) {
         int isrw = !strcmp(c, "rw");
